@@ -21,14 +21,14 @@ def mech(tier, seed):
 def generators(tier, seed):
     if tier == "quick":
         return [dict(module="MC_C03", cfg="MC_C03_q2", workers=4),
-                dict(module="MC_C03", cfg="MC_C03_q", workers=4, limit=8000),
+                dict(module="MC_C03", cfg="MC_C03_q", workers=4, limit=6000),
                 dict(module="MC_C03", cfg="MC_C03_r", workers=4, limit=3000)]         # pseudo-random trees (WorldRnd)
     return [dict(module="MC_C03", cfg="MC_C03_q", workers=8), dict(module="MC_C03", cfg="MC_C03_rt", workers=8)]
 
 MANIFEST = dict(
     design_ref='DESIGN.md §5 C03',
     text='TLC enumerates every Boolean formula (Polish notation) with <= 3 connectives over five leaves for three atom tables covering all 13 operator kinds, rendered with minimal and with full round/curly brackets; each is run on world W3 (all 8 truth assignments, boundary entries) and judged by Judge_Filter with three-valued Boolean evaluation (Eval!EvalP).',
-    note='Trusted: TLC, Eval.tla, Lang.tla rendering. Quick: all formulas with <= 2 connectives plus 8000 sampled of the 189 120 with <= 3; thorough: all.',
+    note='Trusted: TLC, Eval.tla, Lang.tla rendering. Quick: all formulas with <= 2 connectives plus 6000 sampled of the 189 120 with <= 3; thorough: all.',
     technique='TLC formula enumeration + replay + TLA+ judge')
 
 
